@@ -67,7 +67,7 @@ fn main() {
         let choices: Vec<u32> = serde_json::from_value(c["choices"].clone()).unwrap_or_else(|e| machinery_error(&ctx.id, &format!("bad choices: {e}")));
         replay_into(cfg, &ch, &choices, &mut rep).unwrap_or_else(|e| machinery_error(&ctx.id, &e));
     } else {
-        let bound = ctx.tier.pick(2, 3);
+        let bound = ctx.tier.pick(3, 4);
         let cfgs = configs(ctx.tier);
         let per_cfg_cap = Duration::from_secs(ctx.tier.pick(50, 840) / cfgs.len() as u64);
         for cfg in &cfgs {
@@ -82,7 +82,7 @@ fn main() {
         &ctx,
         rep,
         Spec {
-            rule: "E3 envdfs on the real Syncer+InMemoryStore+mocked P2p (paused clock): all environment choice sequences with <= 2 (quick) / <= 3 (thorough) non-default choices on config all-in-window-batch4 and <= 1 / <= 2 on old6-batch4, all-in-window-batch4-prefilled-11-14 [+ all-in-window-batch7 in thorough]; default = honest full answer to the oldest request / reconnect / run init timers / stop when idle; menu per step = range request {honest, all-but-last prefix, first only, header-ex error, fork-B range, A|B splice, B|A splice, Ok(empty)} x head request {honest, stale honest, advanced honest, error} x {header-sub next head, skip one} x {disconnect, reconnect} x {61 s pass}; horizon 40 default-only events after the last deviation, 60 events absolute; evaluation = one complete execution, transition = one environment event followed by the oracles, states = distinct property-level observation traces",
+            rule: "E3 envdfs on the real Syncer+InMemoryStore+mocked P2p (paused clock): all environment choice sequences with <= 3 (quick) / <= 4 (thorough) non-default choices on config all-in-window-batch4 and <= 2 / <= 3 on old6-batch4, all-in-window-batch4-prefilled-11-14 [+ all-in-window-batch7 in thorough]; default = honest full answer to the oldest request / reconnect / run init timers / stop when idle; menu per step = range request {honest, all-but-last prefix, first only, header-ex error, fork-B range, A|B splice, B|A splice, Ok(empty)} x head request {honest, stale honest, advanced honest, error} x {header-sub next head, skip one} x {disconnect, reconnect} x {61 s pass}; horizon 40 default-only events after the last deviation, 60 events absolute; evaluation = one complete execution, transition = one environment event followed by the oracles, states = distinct property-level observation traces",
             assumptions: &[
                 "Time::now() is not seamed: header times are >= 2 h away from the sampling-window edge",
                 "the mock sits behind the header-ex client's per-header validation (C28): answers are contiguous runs of individually valid headers starting at the requested height (honest chain A or fork B, which shares chain id and validator key with A but differs at every height); Ok(empty) over-approximates the client",
